@@ -1,0 +1,5 @@
+// Declares the cfg name used by the verification hooks so that `unexpected_cfgs` stays quiet.
+fn main() {
+    println!("cargo::rustc-check-cfg=cfg(isographlabs_isograph_verif)");
+    println!("cargo::rerun-if-changed=build.rs");
+}
